@@ -170,6 +170,13 @@ impl Session {
         }
     }
 
+    /// Verification hook (compiled only with `--features verif-hooks`): the md5 of the scheme this session shapes its
+    /// packets with, so that a replay can observe which scheme a newly opened session starts from
+    #[cfg(feature = "verif-hooks")]
+    pub async fn verif_padding_md5(&self) -> String {
+        self.padding.read().await.md5().to_string()
+    }
+
     /// Create a new server session
     pub fn new_server<R, W>(reader: R, writer: W, padding: Arc<PaddingFactory>) -> Self
     where
